@@ -40,6 +40,11 @@ def parseScript (t : String) : Option (List AttemptSpec) :=
   if t == "-" then some [] else (t.splitOn ",").mapM parseAttempt
 
 def parseInj (t : String) : Option (Bool × InjKind) :=
+  -- a leading `2`: Close is called a second time while the first is in progress; the second call makes
+  -- the same promises, so the scenario's trace and classes are those of the single Close
+  let t := match t.toList with
+    | '2' :: rest => String.ofList rest
+    | _ => t
   let (cancel, body) := match t.toList with
     | 'x' :: rest => (true, String.ofList rest)
     | _ => (false, t)
